@@ -209,7 +209,14 @@ def dataset_cases(ctx):
         for ncol in (2, 3):
             for order in ("hourly", "gaps", "unordered"):
                 i += 1
-                yield dict(fn="dataset", n=n, ncol=ncol, order=order, idx=i, seed=ctx.seed)
+                yield dict(fn="dataset", n=n, ncol=ncol, order=order, idx=i, seed=ctx.seed, reuse=False)
+    # one path rewritten with different datasets in sequence and read again after every rewrite
+    # (what is returned must be what the file holds NOW)
+    for n in ctx.pick([3, 3, 40, 2, 40], [3, 3, 40, 2, 40, 1000, 7, 1000]):
+        for ncol in (2, 3, 2):
+            i += 1
+            yield dict(fn="dataset", n=n, ncol=ncol, order=("hourly", "gaps", "unordered")[i % 3], idx=i,
+                       seed=ctx.seed, reuse=True)
 
 
 def dataset_record(vc, case, workdir):
@@ -226,7 +233,7 @@ def dataset_record(vc, case, workdir):
     vals = np.round(rng.uniform(0, 30, size=(n, ncol)), 4)
     names = ["time (YYYY-MM-DD-HH)", "significant wave height (m)", "zero-up-crossing period (s)", "wind speed (m s-1)"]
     cols = names[:ncol + 1]
-    path = workdir / f"ds_{case['idx']}.txt"
+    path = workdir / ("ds_reused_path.txt" if case.get("reuse") else f"ds_{case['idx']}.txt")
     epoch = np.datetime64("1970-01-01T00")
     with open(path, "w") as fh:
         fh.write("; ".join(cols) + "\n")
@@ -249,7 +256,8 @@ def dataset_record(vc, case, workdir):
         rec["gotcols"] = [cps(str(c)) for c in df.columns]
     except Exception as e:  # noqa
         rec["exc"] = f"{type(e).__name__}: {e}"[:160]
-    path.unlink(missing_ok=True)
+    if not case.get("reuse"):
+        path.unlink(missing_ok=True)
     return rec
 
 
@@ -433,7 +441,8 @@ def key_of(case):
         return (f"plot_2D_contour npts={case['npts']} swap={case['swap']} design_conditions={case['dc']} "
                 f"sample={case['sample']} sem={case['sem']} ax={'given' if case['axgiven'] else 'None'} seed={case['seed']}")
     if case["fn"] == "dataset":
-        return f"read_ec_benchmark_dataset rows={case['n']} cols={case['ncol']} order={case['order']}"
+        return (f"read_ec_benchmark_dataset rows={case['n']} cols={case['ncol']} order={case['order']}"
+                + (f" path=reused#{case['idx']}" if case.get("reuse") else ""))
     return case["label"]
 
 
@@ -540,7 +549,8 @@ def run(ctx):
                 "(with/without extension, dotted directories, hidden files, trailing dot, spaces); plot_2D_contour: 1-4 "
                 "points x swap_axis x design_conditions None/True/array x sample x semantics x ax; the driver supplies "
                 "seeded coordinates incl. rounding ties, negative zero, 7+ decimals (quick 1, thorough 6 data seeds); "
-                "plus read_ec_benchmark_dataset on synthetic files (1..1e4 rows, hourly/gaps/unordered, 2-3 columns) and "
+                "plus read_ec_benchmark_dataset on synthetic files (1..1e4 rows, hourly/gaps/unordered, 2-3 columns; fresh "
+                "paths and ONE path rewritten with different datasets and re-read after every rewrite) and "
                 "the four other plot functions on fitted predefined models. distinct = distinct call; non-trivial = the "
                 "call returned")
     ctx.trusted = ["TLC 1.8 evaluating spec/ExportOps.tla, spec/Trace_C20.tla",
@@ -587,5 +597,8 @@ def replay(ctx, case):
         for name, model, data, sem in fitted_models(vc, ctx):
             extra += [r for r in other_plots(vc, ctx, name, model, data, sem) if r.get("label") == c["label"]]
         judge(ctx, vc, [], extra, "replay")
+    elif c["fn"] == "dataset" and c.get("reuse"):
+        # the failing read was preceded by another dataset at the same path
+        judge(ctx, vc, [dict(c, idx=c["idx"] + 1000, n=c["n"] + 2), c], [], "replay")
     else:
         judge(ctx, vc, [c], [], "replay")
